@@ -152,7 +152,9 @@ Definition ex_A : crs QcS := mkCrs 4 [[(0, qc 2 1); (1, qc (-1) 1)]; [(0, qc (-1
 Definition ex_parts := [2; 0; 2].
 Definition ex_Pw (Xs : list (vec QcS)) : list (vec QcS) := map (map (fun v => (qc 1 2 * v)%S)) Xs.
 Definition ex_Pser (x : vec QcS) : vec QcS := map (fun v => (qc 1 2 * v)%S) x.
-Definition ex_prm : @kprm QcS := mkPrm 2 (qc 1 1000000) (qc 0 1) false false 30 false (qc 1 1).
+Definition ex_prm : @kprm QcS :=
+  {| p_maxiter := 2; p_tol := qc 1 1000000; p_abstol := qc 0 1; p_ns := false; p_ca := false; p_M := 30;
+     p_left := false; p_damping := qc 1 1; p_K := 3; p_areset := true; p_L := 2; p_delta := qc 0 1; p_convex := true |}.
 Definition ex_junk : @wcg QcS := mkWcg [] [] [[qc 0 1; qc 0 1]; []; [qc 0 1; qc 0 1]] [[qc 0 1; qc 0 1]; []; [qc 0 1; qc 0 1]]
                                        [[qc 0 1; qc 0 1]; []; [qc 0 1; qc 0 1]] [] [] [] [].
 Example C12_nonvacuous :
